@@ -18,7 +18,7 @@ SPEC = dict(
     technique="deterministic simulation: seeded lock-level scheduler over instrumented swarm stack on simnet, scripted per-address reachability, history oracles",
     design_ref="DESIGN.md section 5 (C05)",
     quick_s=50, thorough_s=600,
-    rule=("one run = one tape: strata (exact|filters, all-fail, stalls, insecure|noise, latency), per-peer cap 1-8, FD cap "
+    rule=("one run = one tape: strata (exact|filters, all-fail, slow worker, back-off rejoin, stalls, insecure|noise, latency), per-peer cap 1-8, FD cap "
           "unset|1-4, two target peers with 0-8 / 0-3 addresses (TCP private/public/IPv6 with scripts succeed, refuse, black "
           "hole, accept-and-stall, reset/EOF/stall at the k-th I/O call, honest other peer, lying transport; QUIC-v1, "
           "WebTransport, WebSocket, relay stubs failing after a drawn delay or hanging; /dns4 names resolving to 0-2 "
